@@ -82,6 +82,59 @@ def main(argv):
                     who = str(first) if ok else "?"
                     real = f"ok result={kinds[first] if kinds[first] != HIT else 'H' + who} consulted={len(log)}"
                 metas.append((case, real))
+    # histories on ONE FallbackClient object: the caches change state between the calls ("for every state of the underlying caches");
+    # every read of the history is judged like a single read, and consults the model for that state
+    def judge(fc, log, kinds, op, hist):
+        del log[:]
+        arg = "k" if op in ("get", "gets") else ["k", "j"]
+        res = getattr(fc, op)(arg)
+        multi = op.endswith("many")
+        hit = (lambda k: k == HIT) if multi else (lambda k: k != NONE)
+        first = next((i for i, k in enumerate(kinds) if hit(k)), None)
+        want_consulted = list(range(len(kinds))) if first is None else list(range(first + 1))
+        case = {"history": hist, "op": op, "caches": list(kinds), "result": repr(res), "consulted": [e[0] for e in log]}
+        if [e[0] for e in log] != want_consulted or any(e[1] != op or e[2] != (arg,) for e in log):
+            ctx.violation("caches not consulted in order up to and including the first hit (in a sequence of calls on one object)", case, tags=["history"])
+            return False
+        if first is None:
+            ok = (res == []) if multi else (res is None)
+        else:
+            ok = res == ({"k": ("hit", first)} if multi else (("hit", first) if kinds[first] == HIT else 0))
+        if not ok:
+            ctx.violation("read did not return the first hit / the fall-through value (in a sequence of calls on one object)", case, tags=["history"])
+            return False
+        enc = ",".join(k if k != HIT else f"H{i}" for i, k in enumerate(kinds))
+        lines.append(f"fallback mode={'multi' if multi else 'single'} answers={enc}")
+        metas.append((case, f"ok result=FALLTHROUGH consulted={len(log)}" if first is None else
+                      f"ok result={kinds[first] if kinds[first] != HIT else 'H' + str(first)} consulted={len(log)}"))
+        return True
+    READS = ("get", "gets", "get_many", "gets_many")
+    for n in (2, 3):
+        states = list(itertools.product([NONE, EMPTY, HIT], repeat=n))
+        for k1 in states:
+            for k2 in states:
+                for op1, op2 in (itertools.product(READS, repeat=2) if n == 2 else [(o, o) for o in READS] + [("get", "get_many"), ("gets_many", "get")]):
+                    log = []
+                    caches = [Cache(i, k, log) for i, k in enumerate(k1)]
+                    fc = FallbackClient(caches)
+                    ctx.case(("hist", n, k1, k2, op1, op2))
+                    ctx.count("two-call-histories")
+                    if not judge(fc, log, k1, op1, [op1]):
+                        continue
+                    for c, k in zip(caches, k2):
+                        c.kind = k
+                    if ctx.thorough or (hash((k1, k2, op1)) % 4 == 0):
+                        fc.set("k", "v")          # a write in between goes to the primary only and changes nothing for the reads
+                        if [e[0] for e in log if e[1] == "set"] != [0]:
+                            ctx.violation("mutating operation not applied to exactly the first cache (in a sequence of calls on one object)",
+                                          {"history": [op1, "set"], "log": repr(log)}, tags=["history"])
+                            continue
+                    if not judge(fc, log, k2, op2, [op1, op2]):
+                        continue
+                    if n == 2 or ctx.thorough:
+                        for c, k in zip(caches, k1):
+                            c.kind = k
+                        judge(fc, log, k1, op1, [op1, op2, op1])
     if ctx.lean.build_ok:
         for (case, real), m in zip(metas, ctx.driver.batch(lines)):
             if m != real:
